@@ -455,5 +455,6 @@ Definition dispatch (cmd : bytes) (args : list tok) : bytes :=
   else if list_eqb cmd (s2l "pipe") then cmd_pipe args
   else if list_eqb cmd (s2l "mirror") then cmd_mirror args
   else if list_eqb cmd (s2l "producer") then cmd_producer args
+  else if list_eqb cmd (s2l "pstall") then s2l "SKIP"
   else if list_eqb cmd (s2l "nf9h-abs") then cmd_nf9h_abs args
   else s2l "UNKNOWN-COMMAND".
